@@ -20,7 +20,15 @@ func NewHTTPIndexHandler(s IndexStore, writable bool, auth string) http.Handler 
 }
 
 func (h HTTPIndexHandler) ServeHTTP(w http.ResponseWriter, r *http.Request) {
+	if h.authorization != "" && r.Header.Get("Authorization") != h.authorization {
+		http.Error(w, "Unauthorized", http.StatusUnauthorized)
+		return
+	}
 	indexName := path.Base(r.URL.Path)
+	if indexName == "." || indexName == ".." || indexName == "/" {
+		http.Error(w, "expected an index name", http.StatusBadRequest)
+		return
+	}
 
 	switch r.Method {
 	case "GET":
@@ -38,7 +46,7 @@ func (h HTTPIndexHandler) ServeHTTP(w http.ResponseWriter, r *http.Request) {
 func (h HTTPIndexHandler) get(indexName string, w http.ResponseWriter) {
 	idx, err := h.s.GetIndex(indexName)
 	if err != nil {
-		if os.IsNotExist(err) {
+		if indexMissing(err) {
 			w.WriteHeader(http.StatusNotFound)
 		} else {
 			w.WriteHeader(http.StatusBadRequest)
@@ -55,13 +63,28 @@ func (h HTTPIndexHandler) get(indexName string, w http.ResponseWriter) {
 	h.HTTPHandlerBase.get(indexName, b.Bytes(), err, w)
 }
 
+// indexMissing tells a missing index from a failure of the upstream index store,
+// be it a local one (os.ErrNotExist) or a remote one (NoSuchObject).
+func indexMissing(err error) bool {
+	if os.IsNotExist(err) {
+		return true
+	}
+	_, ok := err.(NoSuchObject)
+	return ok
+}
+
 func (h HTTPIndexHandler) head(indexName string, w http.ResponseWriter) {
-	_, err := h.s.GetIndexReader(indexName)
+	r, err := h.s.GetIndexReader(indexName)
 	if err != nil {
-		w.WriteHeader(http.StatusOK)
+		if indexMissing(err) {
+			w.WriteHeader(http.StatusNotFound)
+		} else {
+			w.WriteHeader(http.StatusBadRequest)
+		}
 		return
 	}
-	w.WriteHeader(http.StatusNotFound)
+	r.Close()
+	w.WriteHeader(http.StatusOK)
 }
 
 func (h HTTPIndexHandler) put(indexName string, w http.ResponseWriter, r *http.Request) {
